@@ -171,6 +171,7 @@ class Program:
         if extra:
             self._load_tree('scripts', pkg=None)
             self._load_notebooks('notebooks')
+        self._register_moved()
         self._resolve_bases()
         if os.environ.get('AEIC_VERIF_NO_ALPHA') != '1':
             from . import alpha
@@ -184,6 +185,7 @@ class Program:
             if sub == 'src/AEIC':
                 raise AnalysisError(f'{base} does not exist')
             return
+        files = []
         for p in sorted(base.rglob('*.py')):
             rel = str(p.relative_to(self.root))
             try:
@@ -199,6 +201,14 @@ class Program:
                 modname = '.'.join([pkg] + parts)
             else:
                 modname = 'scripts.' + p.stem
+            files.append((rel, modname, tree, src))
+        if pkg and os.environ.get('AEIC_VERIF_NO_ALPHA') != '1' and os.environ.get('AEIC_VERIF_NO_GLOBALNORM') != '1':
+            # program-level normalisation against the reference tree: renamed identifiers, new named constants,
+            # moved functions (globalnorm.py); the per-file passes follow in _add_module
+            from . import alpha, globalnorm
+            self.globalnorm = globalnorm.apply(files, alpha._load_ref())
+            alpha.set_moved(self.globalnorm.get('moved', {}))
+        for rel, modname, tree, src in files:
             self._add_module(rel, modname, tree, src)
 
     def _load_notebooks(self, sub: str):
@@ -320,6 +330,22 @@ class Program:
                     index_funcs(getattr(s, 'orelse', []), prefix, cls)
 
         index_funcs(m.tree.body, '', None)
+
+    def _register_moved(self):
+        """a function that moved (other module, or module level instead of a static method) is also reachable under
+        the file and qualified name the reference tree has for it"""
+        for (ra, qa), (rb, qb) in (getattr(self, 'globalnorm', None) or {}).get('moved', {}).items():
+            ma, mb = self.modules.get(ra), self.modules.get(rb)
+            if ma is None or mb is None or qb not in mb.functions or qa in ma.functions:
+                continue
+            real = mb.functions[qb]
+            cls = None
+            if '.' in qa:
+                cls = ma.classes.get(qa.rsplit('.', 1)[0])
+            fi = FunctionInfo(qa, real.node, mb, cls if cls is not None else real.cls)
+            ma.functions[qa] = fi
+            if cls is not None:
+                cls.methods.setdefault(qa.rsplit('.', 1)[1], fi)
 
     def _resolve_bases(self):
         for m in self.modules.values():
